@@ -235,7 +235,7 @@ func genAsset(r *lib.Rand, d int) Asset {
 	for v := 0; v < nvar; v++ {
 		switch r.Intn(12) {
 		case 0:
-			a.D = []int{0, 2, 3, 10, 11}[r.Intn(5)]
+			a.D = []int{0, 2, 3, 10, 11, 12, 12}[r.Intn(7)]
 		case 1:
 			a.Limit = genAmount(r, "1000000000")
 		case 2:
